@@ -84,6 +84,20 @@ theorem rotl32_eq_spec (x n : Nat) (hx : x < 4294967296) : rotl32 x n = rol32 x 
     rw [hpow]; exact hx
   rw [h1, ← Nat.shiftLeft_add_eq_or_of_lt h2, Nat.shiftLeft_eq, Nat.shiftRight_eq_div_pow]
 
+theorem rol32_lt (x n : Nat) (hx : x < 4294967296) : rol32 x n < 4294967296 := by
+  unfold rol32
+  generalize hr : n % 32 = r
+  have hr32 : r < 32 := by omega
+  have hpow : 2 ^ (32 - r) * 2 ^ r = 4294967296 := by
+    rw [← Nat.pow_add, Nat.sub_add_cancel (by omega)]
+  have h2 : x / 2 ^ (32 - r) < 2 ^ r := by
+    apply Nat.div_lt_of_lt_mul
+    rw [hpow]; exact hx
+  have h3 : x % 2 ^ (32 - r) < 2 ^ (32 - r) := Nat.mod_lt _ (Nat.two_pow_pos _)
+  have h4 : (x % 2 ^ (32 - r) + 1) * 2 ^ r ≤ 2 ^ (32 - r) * 2 ^ r := Nat.mul_le_mul_right _ h3
+  rw [hpow, Nat.add_mul] at h4
+  omega
+
 theorem rol32_zero (n : Nat) : rol32 0 n = 0 := by
   unfold rol32; simp
 
@@ -551,7 +565,7 @@ theorem checksum_hdr (stub : List Nat) (k : Nat) (rs : List Record) (hlen : 4 * 
 
 /-- `encode` in closed form -/
 theorem encode_eq (r : RichS) (rs : List Record) (destLen : Nat) (hlen : 4 * r.dosStub.length < 4294967296)
-    (hwf : ∀ x ∈ rs, x.WF) (hn : rs.length < 536870900) :
+    (hwf : ∀ x ∈ rs, x.WF) (hn : rs.length < 536870906) :
     r.encode rs destLen = .ok (
       let k := Spec.checksum r.dosStub rs
       let total := ((k / 32) % 3 + rs.length) * 2 + 8
